@@ -50,6 +50,32 @@ func (c *Ctx) mapKV(mt *types.Map) (ks, vs string) {
 	return ks, alias
 }
 
+// elemSort: like sortOf for slice/array elements, but pointer-like and struct
+// element types get a per-type alias sort so that slices of different element
+// types (which cannot alias) live in different Mem.* heap arrays.
+func (c *Ctx) elemSort(t types.Type) string {
+	real := c.sortOf(t)
+	if _, isBasic := types.Unalias(t).(*types.Basic); isBasic {
+		return real
+	}
+	if n, ok := types.Unalias(t).(*types.Named); ok {
+		if _, isB := n.Underlying().(*types.Basic); isB {
+			return real
+		}
+	}
+	ek := typeName(types.Unalias(t))
+	if it, ok := t.Underlying().(*types.Interface); ok && it.NumMethods() == 0 {
+		ek = "any"
+	}
+	alias := "E." + sanitize(ek)
+	if c.sortAlias == nil {
+		c.sortAlias = map[string]string{}
+	}
+	c.sortAlias[alias] = real
+	c.declare(alias, fmt.Sprintf("(define-sort %s () %s)", alias, real))
+	return alias
+}
+
 func (c *Ctx) realSort(s string) string {
 	if r, ok := c.sortAlias[s]; ok {
 		return r
